@@ -296,4 +296,4 @@ def _r18_5(res, P, cfgname):
     # the anchor is the pair of functions; a body without a constant-zero shortcut satisfies the rule trivially
     res.floor("R18.5", cfgname, nf, 2, "simplest_from_f32 / f64 bodies scanned")
 LEVEL = LEVEL + ' (R18.5) simplest_from_f32 / f64 return the constant zero only on the true edge of `f == 0.0`.'
-
+TECHNIQUE = TECHNIQUE + '; dominance of the constant-zero return by the `f == 0.0` edge'
